@@ -377,6 +377,7 @@ def _coalesce_aliases(fn: ast.FunctionDef) -> bool:
     parameter, and `b` is not mentioned before the alias statement.  Pure
     renaming of a single-assignment local: behaviour preserving."""
     changed = False
+    rejected: Set[Tuple[str, str]] = set()
     for _ in range(20):
         params = {a.arg for a in fn.args.args + fn.args.kwonlyargs + fn.args.posonlyargs}
         if fn.args.vararg:
@@ -400,9 +401,15 @@ def _coalesce_aliases(fn: ast.FunctionDef) -> bool:
                     return
                 if isinstance(st, ast.Assign) and len(st.targets) == 1 and isinstance(st.targets[0], ast.Name) and isinstance(st.value, ast.Name):
                     b, a = st.targets[0].id, st.value.id
-                    if a != b and a not in params and b not in params and stores.get(a) == 1 and stores.get(b) == 1:
-                        cand = (stmts, i, a, b, st)
-                        return
+                    if a != b and a not in params and b not in params and stores.get(a, 0) >= 1 and stores.get(b) == 1 and (a, b) not in rejected:
+                        # every binding of `a` lies textually before the alias statement, outside any loop that contains it
+                        pos = (getattr(st, "lineno", 0), getattr(st, "col_offset", 0))
+                        a_stores = [x for x in ast.walk(fn) if isinstance(x, ast.Name) and x.id == a and isinstance(x.ctx, (ast.Store, ast.Del))]
+                        in_loop = any(isinstance(lp, (ast.For, ast.While)) and any(y is st for y in ast.walk(lp)) for lp in ast.walk(fn))
+                        if all((getattr(x, "lineno", 10**9), getattr(x, "col_offset", 0)) < pos for x in a_stores) and not in_loop and (stores.get(a) == 1 or "__" in a):
+                            cand = (stmts, i, a, b, st)
+                            return
+                        rejected.add((a, b))
                 for fld in ("body", "orelse", "finalbody"):
                     sub = getattr(st, fld, None)
                     if isinstance(sub, list) and sub and isinstance(sub[0], ast.stmt):
@@ -421,10 +428,8 @@ def _coalesce_aliases(fn: ast.FunctionDef) -> bool:
             if any(isinstance(x, ast.Name) and x.id == b and isinstance(x.ctx, ast.Load) for x in order) else (10**9, 0)
         if first_b_load < (getattr(st, "lineno", 0), getattr(st, "col_offset", 0)):
             # b read before the alias statement (would now see a's value): leave it
-            stores[a] = -1  # do not retry this candidate
-            # mark by renaming nothing; avoid infinite loop
-            st.value = ast.Name(id=a, ctx=ast.Load())
-            return changed
+            rejected.add((a, b))
+            continue
         del stmts[i]
         if not stmts:
             stmts.append(ast.Pass())
@@ -432,6 +437,81 @@ def _coalesce_aliases(fn: ast.FunctionDef) -> bool:
             if isinstance(x, ast.Name) and x.id == a:
                 x.id = b
         changed = True
+    return changed
+
+
+def _sink_returns(fn: ast.FunctionDef) -> bool:
+    """Single-exit spelling -> returns at the points of definition:
+
+        if c: r = A          if c: return A
+        else: r = B    ->    else: return B
+        return r
+
+    applied to the tail of every block that ends in `return <name>` when each
+    path into that return ends with a plain assignment to the name (through
+    if/else, with, try/finally).  The name must not be read in a `finally`."""
+    changed = [False]
+
+    def sink(stmts: List[ast.stmt], name: str) -> Optional[List[ast.stmt]]:
+        """stmts with its trailing assignments to `name` turned into returns, or None."""
+        if not stmts:
+            return None
+        last = stmts[-1]
+        if isinstance(last, ast.Assign) and len(last.targets) == 1 and isinstance(last.targets[0], ast.Name) and last.targets[0].id == name:
+            return stmts[:-1] + [ast.Return(value=last.value)]
+        if isinstance(last, ast.If) and last.orelse:
+            b, o = sink(last.body, name), sink(last.orelse, name)
+            if b is None or o is None:
+                return None
+            return stmts[:-1] + [ast.If(test=last.test, body=b, orelse=o)]
+        if isinstance(last, ast.With):
+            b = sink(last.body, name)
+            if b is None:
+                return None
+            return stmts[:-1] + [ast.With(items=last.items, body=b)]
+        if isinstance(last, (ast.Return, ast.Raise)):
+            return stmts
+        return None
+
+    def visit(stmts: List[ast.stmt]) -> List[ast.stmt]:
+        for st in stmts:
+            for fld in ("body", "orelse", "finalbody"):
+                sub = getattr(st, fld, None)
+                if isinstance(sub, list) and sub and isinstance(sub[0], ast.stmt) and not isinstance(st, (ast.FunctionDef, ast.ClassDef)):
+                    setattr(st, fld, visit(sub))
+            if isinstance(st, ast.Try):
+                for h in st.handlers:
+                    h.body = visit(h.body)
+        if len(stmts) >= 2 and isinstance(stmts[-1], ast.Return) and isinstance(stmts[-1].value, ast.Name):
+            name = stmts[-1].value.id
+            new = sink(stmts[:-1], name)
+            if new is not None:
+                # the name must not be needed elsewhere: no other read of it after the sunk assignments (it was
+                # only read by the return) -- reads inside the sunk region other than its own definitions are kept
+                changed[0] = True
+                return new
+        return stmts
+
+    fn.body = visit(fn.body)
+    return changed[0]
+
+
+def _canonical_loops(fn: ast.FunctionDef) -> bool:
+    """`while True: if not C: break; BODY`  ->  `while C: BODY` (and the `if C: break`
+    twin): the literal spelling of a guarded loop.  Only when the guard test is the
+    first statement of the body, has no else branch and the loop has no else."""
+    changed = False
+    for x in ast.walk(fn):
+        if isinstance(x, ast.While) and isinstance(x.test, ast.Constant) and x.test.value is True and not x.orelse and x.body:
+            first = x.body[0]
+            if isinstance(first, ast.If) and not first.orelse and len(first.body) == 1 and isinstance(first.body[0], ast.Break) and len(x.body) > 1:
+                t = first.test
+                if isinstance(t, ast.UnaryOp) and isinstance(t.op, ast.Not):
+                    x.test = t.operand
+                else:
+                    x.test = ast.UnaryOp(op=ast.Not(), operand=t)
+                x.body = x.body[1:]
+                changed = True
     return changed
 
 
@@ -490,6 +570,20 @@ def normalize_sources(sources: Dict[str, str], table: Optional[Set[str]] = None)
                             if isinstance(c, ast.ClassDef) and c.name == cls:
                                 c.body = [s for s in c.body if not (isinstance(s, ast.FunctionDef) and s.name == name)] or [ast.Pass()]
                     inlined.append(_qual(modname, cls, name))
+        # source-level canonical forms that do not depend on new helpers
+        canon = False
+        for st in tree.body:
+            if isinstance(st, ast.FunctionDef):
+                canon |= _canonical_loops(st)
+                canon |= _sink_returns(st)
+            elif isinstance(st, ast.ClassDef):
+                for s2 in st.body:
+                    if isinstance(s2, ast.FunctionDef):
+                        canon |= _canonical_loops(s2)
+                        canon |= _sink_returns(s2)
+        if canon:
+            changed_any = True
+            inlined.append(f"{modname}:<guard-loop / single-exit canonicalisation>")
         if changed_any:
             ast.fix_missing_locations(tree)
             # re-parse so that positions are those of the normal form, then tidy the aliases left by inlining
@@ -497,10 +591,12 @@ def normalize_sources(sources: Dict[str, str], table: Optional[Set[str]] = None)
             for st in tree.body:
                 if isinstance(st, ast.FunctionDef):
                     _coalesce_aliases(st)
+                    _canonical_loops(st)
                 elif isinstance(st, ast.ClassDef):
                     for s2 in st.body:
                         if isinstance(s2, ast.FunctionDef):
                             _coalesce_aliases(s2)
+                            _canonical_loops(s2)
             ast.fix_missing_locations(tree)
             out[rel] = ast.unparse(tree) + "\n"
     return out, inlined
